@@ -38,14 +38,20 @@ META = {
             "state and output arrays compared bit for bit; and one driver generic in a_real built as float, double and long double with "
             "ASan+UBSan: cubic/quintic generators (ts a power of two, dyadic boundary data; expected coefficients from an exact solve of "
             "the boundary conditions), pos/vel/acc, c0/c1/c2 into exactly sized guarded arrays, a_poly_eval/evar/swap and xTx/xTy must "
-            "print exactly the expected values in all three builds; the septic (factor 1/6) within 1e-5 of the size of its terms.",
+            "print exactly the expected values in all three builds; the septic (factor 1/6) within 1e-5 of the size of its terms. "
+            "LOOP TIE (harness/C15/TieLoop1.v, 9 theorems re-proved on every run): a_poly_eval_/evar_/swap_ and the wrappers of "
+            "a/poly.h are regenerated from the current sources with their pointer loops as Fixpoints (tools/c2arr.py: both pointers "
+            "offsets into one list, checked loads and stores) and proved equal to the hand model for every NumOps instance, EVERY "
+            "coefficient count and every position of the coefficients inside a larger array, without size hypotheses; the empty "
+            "range (undefined in C) is an error on both sides.",
     "note": "Trusted: Coq kernel/vm_compute (primitive floats), the standard real-number axioms (sig_forall_dec, sig_not_dec, "
             "functional_extensionality_dep, classic via Coquelicot) as listed by Print Assumptions; the 'same term, different "
             "NumOps instance' argument between R and binary64; the hand transcription coq/C15/PolyDefs.v, validated bit for bit "
-            "against the C on the generated cases only; gcc -O2 -ffp-contract=off on x86-64 being IEEE binary64 op by op. The glue runs "
+            "against the C on the generated cases only; the translators (tools/c2coq.py, tools/c2arr.py) are trusted to read the C "
+            "right - their output is proved equal to the model, not to the C; gcc -O2 -ffp-contract=off on x86-64 being IEEE binary64 op by op. The glue runs "
             "(tools/vglue.py, harness/glue/) are differential tests on generated inputs, not theorems; the float and long double builds "
             "are not modelled in Rocq (the septic there is only compared with the exact solution within a float-sized tolerance).",
-    "technique": "Rocq proof over R (field, auto_derive, list induction) + coefficient formulas regenerated from src/trajpoly*.c by a translator and re-tied by conversion on every run, the Horner evaluators and the coefficient swap unrolled for 0..6 coefficients and proved equal to the wrapper model + bit-exact primitive-float model vs C correspondence",
+    "technique": "Rocq proof over R (field, auto_derive, list induction) + coefficient formulas regenerated from src/trajpoly*.c by a translator and re-tied by conversion on every run, the Horner evaluators and the coefficient swap regenerated with their loops as Fixpoints and proved equal to the model for every coefficient count, and unrolled for 0..6 coefficients and proved equal to the wrapper model + bit-exact primitive-float model vs C correspondence",
 }
 
 H = vlib.VERIF / "harness" / "C15"
@@ -175,6 +181,10 @@ def run(ctx):
     # third tie: the Horner evaluators and the coefficient swap, UNROLLED for 0..6 coefficients (cores of poly.c inlined into the
     # wrappers of poly.h), proved equal to the wrapper model for all coefficients and arguments
     ctx.translate_and_tie([("src/poly.c", (H / "tie_names.txt").read_text().split())], "GenPolyN", H / "TiePolyN.v")
+    # fourth tie: the same functions with their pointer loops as Fixpoints (tools/c2arr.py), proved equal to the model for EVERY
+    # coefficient count and every position inside a larger array (harness/C15/TieLoop1.v)
+    import varr
+    varr.arr_translate_and_tie(ctx, "C15")
     ctx.assumptions += ["floating-point rounding at the end time is measured (tolerance 1e-9 * data scale), not proved",
                         "C built with gcc -O2 -ffp-contract=off: binary64 operation by operation"]
     cbin = ctx.cc("drv", [H / "drv.c"], repo_srcs=["trajpoly3.c", "trajpoly5.c", "trajpoly7.c", "poly.c", "a.c"], mode="num")
